@@ -103,6 +103,12 @@ func runCheck(id string, def checkDef, tier, replayKey string) (code int) {
 			r.Note("configuration %s: %d obligations, %d violations", name, len(sub.Obls), len(sub.Viols))
 		}
 	}
+	for _, f := range exhaustedSims {
+		r.Fail("undecided", "pathsim.budget", f, "", "the path exploration of "+f+" exceeded its work budget: the rules that depend on it are undecided (a recursion or loop nest much larger than anything on the reference tree)")
+	}
+	if os.Getenv("VERIF_STEPS") != "" {
+		fmt.Fprintf(os.Stderr, "pathsim: largest simulator entered %d blocks\n", stepsHigh)
+	}
 	return r.Finish()
 }
 
